@@ -157,6 +157,18 @@ func init() {
 					}
 					signed := append([]byte(nil), b.Raw...)
 					report(signed, nil, "fresh")
+					{
+						// signing is refused once FINGERPRINT is present; the refusal must not disturb the message
+						d := &stun.Message{Raw: exactSlice(signed, 40)}
+						if d.Decode() == nil {
+							_ = stun.NewShortTermIntegrity("late").AddTo(d)
+							c.Eval(1)
+							if err := stun.Fingerprint.Check(d); err != nil || !bytes.Equal(d.Raw, signed) {
+								c.Violation("fingerprint-fails-after-refused-integrity", fmt.Sprintf("after a refused MessageIntegrity.AddTo: Fingerprint.Check = %v, Raw changed: %v", err, !bytes.Equal(d.Raw, signed)), c05Case{Hex: hex.EncodeToString(signed), Orig: "refused-mi"})
+								bad = true
+							}
+						}
+					}
 					if withMI {
 						// a failed integrity attempt (wrong key) on the same Message must not disturb the fingerprint check
 						d := &stun.Message{Raw: exactSlice(signed, 40)}
@@ -362,6 +374,16 @@ func init() {
 				want := append(span, 0x80, 0x28, 0x00, 0x04, byte(v>>24), byte(v>>16), byte(v>>8), byte(v))
 				if !bytes.Equal(b.Raw, want) {
 					c.Violation("addto-wrong-value", "Fingerprint.AddTo differs from RFC 5389 s15.5 on a large message", k)
+				}
+				return
+			}
+			if k.Orig == "refused-mi" {
+				d := &stun.Message{Raw: exactSlice(raw, 40)}
+				if d.Decode() == nil {
+					_ = stun.NewShortTermIntegrity("late").AddTo(d)
+					if err := stun.Fingerprint.Check(d); err != nil || !bytes.Equal(d.Raw, raw) {
+						c.Violation("fingerprint-fails-after-refused-integrity", fmt.Sprint(err), k)
+					}
 				}
 				return
 			}
